@@ -580,3 +580,88 @@ impl<S, I: Abstract> Stream for Mock<S, I> {
         Poll::Pending
     }
 }
+
+/// Conformance self-test of the mock itself: a reference well-behaved sink user (futures'
+/// `SinkExt::feed`/`flush`/`close`, which follow the Sink contract by construction) drives the mock
+/// through blocked and unblocked phases; the mock must deliver every item in order, must never flag
+/// the reference user, and must wake it whenever the awaited condition changes.
+pub fn selftest(seed: u64, model: Model, cap: usize) -> crate::common::Outcome {
+    use crate::common::*;
+    use futures::{Future, SinkExt};
+    let mut out = Outcome::default();
+    out.desc = serde_json::json!({"family": "mock-selftest", "seed": seed, "model": format!("{model:?}"), "cap": cap});
+    let (mock, st) = new_mock::<ClientMessage<String>, Response<String>>("selftest", model, cap, None);
+    let n = 40usize;
+    let mut user = Box::pin(async move {
+        let mut m = mock;
+        for i in 0..n {
+            let item = ClientMessage::Cancel { trace_context: trace::Context::default(), request_id: i as u64 };
+            if m.feed(item).await.is_err() {
+                return false;
+            }
+            if i % 3 == 0 && m.flush().await.is_err() {
+                return false;
+            }
+        }
+        m.close().await.is_ok()
+    });
+    let fl = flag();
+    let mut rng = Rng::new(seed);
+    let mut done = None;
+    let mut steps = 0;
+    while done.is_none() && steps < 100_000 {
+        steps += 1;
+        if fl.is_woken() {
+            fl.clear();
+            st.borrow_mut().begin_epoch(steps);
+            let w = futures::task::waker(fl.clone());
+            if let Poll::Ready(ok) = user.as_mut().poll(&mut Context::from_waker(&w)) {
+                done = Some(ok);
+            } else {
+                st.borrow_mut().on_task_pending();
+            }
+        } else {
+            // the user is parked: the environment must be able to make progress possible again
+            let mut s = st.borrow_mut();
+            match model {
+                Model::Coupled => {
+                    if !s.flush_open {
+                        s.env_open_flush();
+                    } else {
+                        drop(s);
+                        out.viol("C14", "mock-selftest-stall", "the reference sink user is parked although the mock is writable: the mock lost a wake-up".into());
+                        break;
+                    }
+                }
+                Model::Independent => {
+                    if s.slots < s.cap {
+                        let k = 1 + rng.below(cap);
+                        s.env_free_slots(k);
+                    } else {
+                        drop(s);
+                        out.viol("C14", "mock-selftest-stall", "the reference sink user is parked although slots are free: the mock lost a wake-up".into());
+                        break;
+                    }
+                }
+            }
+        }
+        if model == Model::Coupled && rng.chance(1, 4) {
+            st.borrow_mut().env_close_flush();
+        }
+    }
+    let s = st.borrow();
+    for v in s.viols.iter() {
+        out.viol("C14", "mock-selftest-false-report", format!("the monitor flagged the reference sink user: {}", v.msg));
+    }
+    if done != Some(true) && out.viols.is_empty() {
+        out.viol("C14", "mock-selftest-incomplete", format!("reference user finished with {done:?} after {steps} steps"));
+    }
+    let ids: Vec<u64> = s.visible().map(|(_, x)| x.item.id()).collect();
+    if done == Some(true) && ids != (0..n as u64).collect::<Vec<_>>() {
+        out.viol("C14", "mock-selftest-delivery", format!("items visible to the peer: {ids:?}"));
+    }
+    out.cell(format!("C14.mock-selftest.{model:?}"));
+    out.sig = mix(seed, cap as u64 * 7 + (model == Model::Coupled) as u64);
+    out.trace = vec![format!("mock self-test {model:?} cap {cap}: {} items delivered in {steps} steps", ids.len())];
+    out
+}
